@@ -175,11 +175,29 @@ def main(chk, replay=None):
         for fl in fails[:2]:
             chk.violation({"what": "context arguments: %s for context %s" % (fl["clause"], fl.get("context")), "class": {"clause": fl["clause"], "kind": "values"},
                            "kind": "values", "backend": backend, "observed": fails[:3]})
-    for i in range(n):
+    Z = [0, 0]
+    noexc = {"raise": [0, 0, 0, 0]}
+    directed = [
+        # further calls are prevented at an inner edge whose callee makes memento calls itself (handled / propagating; under a
+        # context override; callee memoized beforehand by an earlier statement or not)
+        dict(fns={1: dict(explicit=False, stmts=[], const=1, **noexc), 2: dict(explicit=False, stmts=[["call", 1, 0, "i", False, False, False, False, Z]], const=2, **noexc),
+                  3: dict(explicit=False, stmts=[["call", 2, 0, "i", False, True, True, False, Z], ["call", 1, 1, "i", False, False, False, False, Z]], const=3, **noexc)}),
+        dict(fns={1: dict(explicit=False, stmts=[], const=1, **noexc), 2: dict(explicit=False, stmts=[["call", 1, 0, 1, False, False, False, False, Z]], const=2, **noexc),
+                  3: dict(explicit=False, stmts=[["call", 1, 0, 1, False, False, False, False, Z], ["call", 2, 0, 2, False, True, True, False, Z],
+                                                 ["batch", 2, [0, 1], "i", False, True, False, False, Z]], const=3, **noexc)}),
+        dict(fns={1: dict(explicit=False, stmts=[], const=1, **noexc), 2: dict(explicit=False, stmts=[["call", 1, 0, "i", False, False, False, False, Z]], const=2, **noexc),
+                  3: dict(explicit=False, stmts=[["call", 2, 0, "i", False, True, False, False, Z]], const=3, **noexc),
+                  4: dict(explicit=False, stmts=[["call", 3, 0, "i", False, False, True, False, Z]], const=4, **noexc)}),
+    ]
+    for i in range(n + len(directed)):
         simple = rng.random() < 0.5
-        prog = progs.gen_program(rng, nfns=rng.randint(2, 6), ctx_rate=0.4, exc_rate=0.0 if simple else 0.25,
-                                 hidden_rate=0.0 if simple else 0.04, flag_rate=0.0 if simple else 0.08,
-                                 prevent_rate=0.0 if simple else 0.06)
+        if i < len(directed):
+            prog = json.loads(json.dumps(directed[i]))
+            prog["fns"] = {int(k): v for k, v in prog["fns"].items()}
+        else:
+            prog = progs.gen_program(rng, nfns=rng.randint(2, 6), ctx_rate=0.4, exc_rate=0.0 if simple else 0.25,
+                                     hidden_rate=0.0 if simple else 0.04, flag_rate=0.0 if simple else 0.08,
+                                     prevent_rate=0.0 if simple else 0.15)
         f = max(prog["fns"])
         a = rng.choice([0, 1, 2])
         backend = rng.choice(["memory", "fs", "fs+cache"])
